@@ -608,6 +608,11 @@ class EnvSaveLoad(Bounded):
         vals = ['', 'a', "-O2 'q'"]
         for i, (iv, cv) in enumerate(_it.product(vals, repeat=2)):
             yield {'initial': {'CC': iv, 'KEEP': 'k'}, 'set': {'CFLAGS': cv, 'CC': cv}, 'delete': ['KEEP'] if i % 2 else []}
+        # a cross configuration: another target platform (species different from its genus) and install
+        # directories that are not set
+        for tgt in ('android', 'macos', 'winnt', 'linux'):
+            for unset in (False, True):
+                yield {'initial': {'CC': 'cc'}, 'set': {'NEW': ''}, 'delete': [], 'target': tgt, 'unset_install_dirs': unset}
 
     @staticmethod
     def downgrade(state, to):
@@ -647,7 +652,13 @@ class EnvSaveLoad(Bounded):
                 env.variables[k] = v
             for k in raw['delete']:
                 del env.variables[k]
+            if raw.get('target'):
+                from bfg9000.platforms import target as _target
+                env.target_platform = _target.platform_info(raw['target'])
             env.finalize({}, (True, False), False, ['--foo'])
+            if raw.get('unset_install_dirs'):
+                for k in list(env.install_dirs)[:2]:
+                    env.install_dirs[k] = None
             os.makedirs(tmp + '/build')
             env.save(tmp + '/build')
             fn = os.path.join(tmp, 'build', E.Environment.envfile)
@@ -669,12 +680,23 @@ class EnvSaveLoad(Bounded):
                     problems[f] = (repr(getattr(env2, f)), repr(getattr(env, f)))
             if str(env2.backend_version) != str(env.backend_version):
                 problems['backend_version'] = str(env2.backend_version)
-            if env2.install_dirs != env.install_dirs:
+            def plain(dirs):
+                return {k: None if v is None else (v.root, v.suffix, v.destdir, v.directory) for k, v in dirs.items()}
+            if plain(env2.install_dirs) != plain(env.install_dirs):
                 problems['install_dirs'] = repr(env2.install_dirs)
+            if to >= 14:
+                for which in ('host_platform', 'target_platform'):
+                    a_, b_ = getattr(env, which), getattr(env2, which)
+                    if (a_.genus, a_.species, a_.arch, a_.name) != (b_.genus, b_.species, b_.arch, b_.name) or a_ != b_:
+                        problems[which] = ((b_.genus, b_.species, b_.arch), (a_.genus, a_.species, a_.arch))
             if env2.compdb != (env.compdb if to >= 16 else True):
                 problems['compdb'] = env2.compdb
             if problems:
                 return self.fail(case, raw, 'reloaded_configuration_equals_saved', differences=problems)
+            if env2.install_dirs != env.install_dirs:
+                kinds = {k.name: (type(env.install_dirs[k]).__name__, type(v).__name__)
+                         for k, v in env2.install_dirs.items() if v is not None and type(v) is not type(env.install_dirs[k])}
+                return self.fail(case, raw, 'install_directories_keep_their_path_flavour', changed=kinds)
         return True
 
 
